@@ -874,6 +874,9 @@ def lookup(it, info):
         # local impls: From/Into are inlined (see m_into / m_from); Not etc. cannot be local on foreign types
         if orig in ('std::convert::From::from',) and res and res.get('local'):
             return None
+        # a crate-local Deref / DerefMut impl (newtype wrappers) is inlined: it returns a reference into the wrapper, not the wrapper
+        if orig in ('std::ops::Deref::deref', 'std::ops::DerefMut::deref_mut') and res and res.get('local') and it.p.bodies.get(res['def']) is not None:
+            return None
         # comparison / clone traits: derived impls are structural (modelled); a HAND-WRITTEN crate-local impl is inlined instead
         if orig in HANDWRITTEN_SENSITIVE and res and res.get('local'):
             body = it.p.bodies.get(res['def'])
